@@ -1,6 +1,7 @@
 //! simx — explicit-event exploration of the running wtransport driver on real quinn over an
 //! in-memory network with a virtual clock and an owned `select!` start index.
 pub mod c01;
+pub mod c01c;
 pub mod c02;
 pub mod c03;
 pub mod c04;
